@@ -22,8 +22,8 @@ def run(ctx):
     add("plain", fam="ladder", emb="0", npts=40, cfg="lite", seed=s)
     for k in range(4 if q else 12):   # concentric rings + rectangles collinear with ring edges: nested polygons merged by horizontal joins
         add("plain", fam="ringrect", n=120 if q else 700, emb="0", cfg="lite" if k % 2 else "full", seed=s * 100 + 80 + k)
-    for k in range(8 if q else 16):   # unions of 5-8 mixed-orientation rectangles on even coordinates: rings split, absorbed and re-split by horizontal joins
-        add("plain", fam="rects", n=800 if q else 8000, grid=8, kmin=5, kmax=8, subjonly=1, mul=2, emb="0", cfg="lite", cts="2", frs="0,1", seed=s * 100 + 90 + k)
+    for k in range(8 if q else 32):   # unions of 5-8 mixed-orientation rectangles on even coordinates: rings split, absorbed and re-split by horizontal joins
+        add("plain", fam="rects", n=800 if q else 2500, grid=8, kmin=5, kmax=8, subjonly=1, mul=2, emb="0", cfg="lite", cts="2", frs="0,1", seed=s * 100 + 90 + k)
     if not q:
         for k in range(8):
             add("plain", fam="nest", n=60, emb="2,3", npts=40, cfg="lite", seed=s * 100 + 60 + k)
